@@ -218,6 +218,12 @@ class ConvReq(Mon):
             sg2 = Signal(name_override="bad_%s_size_legal" % chn)
             self.comb += sg2.eq(a.valid & (b.size > fulls))
             bads["%s_translated_size_fits_slave_bus" % chn] = sg2
+            if down:
+                # a wrapping burst can only be reproduced by a wrapping burst (an INCR/FIXED one leaves the wrap window or never moves): no excuse,
+                # also for the wrap lengths whose translated beat count exceeds 16 (listed finding: that burst is too long for AXI, but it still wraps)
+                sg4 = Signal(name_override="bad_%s_wrap_kept" % chn)
+                self.comb += sg4.eq(a.valid & (a.burst == BURST_WRAP) & full & (b.burst != BURST_WRAP))
+                bads["%s_full_width_wrap_burst_stays_wrap" % chn] = sg4
             sg3 = Signal(name_override="bad_%s_window" % chn)
             self.comb += sg3.eq(a.valid & (a.burst == BURST_INCR) & (((a.len + 1) << lr) <= 256 if down else 1) & ~((lo_s <= lo_m) & (hi_s >= hi_m)))
             # (a window-containment obligation without excuse was tried and dropped: for narrow bursts it fails for the same listed reason)
@@ -286,6 +292,13 @@ def jobs(tier):
     if T:
         js += [Job("axi_conv_req_8to64", build_convreq, dict(dwm=8, dws=64), cost=2), Job("axi_conv_req_128to16", build_convreq, dict(dwm=128, dws=16), cost=2),
                Job("axi_conv_data_32to8", build_conv_data, dict(dwm=32, dws=8, depth_s=8, K=26, maxlen=0), cost=90, timeout_s=3500)]
+    # the payload re-packing of the AXI width converters is done by stream.Converter/StrideConverter (w_converter, r_converter): the stream-level
+    # scoreboards of C03 for exactly those elements (data, first/last per word, params) are part of this property's deciding obligations as well
+    from vf import streams
+    from vf.props.c03 import _build
+    for e in streams.catalogue():
+        if tier in e.tiers and e.name.startswith(("upconv_", "downconv_", "stride_")):
+            js.append(Job("axi_payload_repacking_" + e.name, _build, dict(name=e.name, K=24 if T else 16), cost=e.cost))
     return js
 
 
